@@ -252,8 +252,11 @@ def write_evidence(prop, mod, tier, seed, merged, wall, violations, extra):
         "wall_s": round(wall, 2),
         "violations": int(violations),
     }
-    os.makedirs(os.path.join(HERE, "evidence"), exist_ok=True)
-    path = os.path.join(HERE, "evidence", f"{prop}.json")
+    # VERIF_EVIDENCE_DIR: maintenance knob, used when the checks are pointed at a scratch copy of xgcm (seeded changes),
+    # so that those runs do not overwrite the evidence of the real tree
+    evdir = os.environ.get("VERIF_EVIDENCE_DIR") or os.path.join(HERE, "evidence")
+    os.makedirs(evdir, exist_ok=True)
+    path = os.path.join(evdir, f"{prop}.json")
     tmp = path + ".tmp"
     with open(tmp, "w") as f:
         json.dump(ev, f, indent=1, sort_keys=True, default=str)
